@@ -45,9 +45,9 @@ func gen(t *rapid.T) Case {
 	n := rapid.IntRange(1, 5).Draw(t, "n")
 	for i := 0; i < n; i++ {
 		s := Step{Hook: rapid.IntRange(0, 1).Draw(t, "hook")}
-		s.Exit = rapid.SampledFrom([]string{"0", "0", "0", "0", "1", "2", "127", "signal"}).Draw(t, "exit")
-		s.Metrics = rapid.SampledFrom(fileStates).Draw(t, "metrics")
-		s.Patch = rapid.SampledFrom(fileStates).Draw(t, "patch")
+		s.Exit = rapid.SampledFrom([]string{"0", "0", "0", "0", "0", "0", "0", "1", "2", "127", "signal"}).Draw(t, "exit")
+		s.Metrics = rapid.SampledFrom(append([]string{"trailing"}, fileStates...)).Draw(t, "metrics")
+		s.Patch = rapid.SampledFrom(append([]string{"trailing"}, fileStates...)).Draw(t, "patch")
 		s.Admission = rapid.SampledFrom(fileStates).Draw(t, "admission")
 		s.Conversion = rapid.SampledFrom(fileStates).Draw(t, "conversion")
 		s.Hold = rapid.IntRange(0, 2).Draw(t, "hold") == 0
@@ -71,6 +71,9 @@ func fileFor(kind, state string, k int) *vh.File {
 	case "truncated":
 		v := valid[kind]
 		return &vh.File{Content: v[:len(v)/2]}
+	case "trailing":
+		// a complete document followed by a stray closing bracket: not a stream of JSON documents
+		return &vh.File{Content: valid[kind] + []string{"}", "]", "\n}\n"}[k%3]}
 	case "wrongtype":
 		if kind == "patch" {
 			return &vh.File{Content: `[1, 2, 3]`}
@@ -109,7 +112,7 @@ func expect(s Step) string {
 	}
 	states := []string{s.Metrics, s.Patch, s.Admission, s.Conversion}
 	for _, st := range states {
-		if st == "truncated" || st == "wrongtype" {
+		if st == "truncated" || st == "wrongtype" || st == "trailing" {
 			return "fail"
 		}
 	}
@@ -164,10 +167,10 @@ func runCase(c Case) (ev.Info, error) {
 	}
 	allPaths := map[string]string{}
 	type pending struct {
-		k      int
-		step   Step
-		n0     int
-		gate   string
+		k    int
+		step Step
+		n0   int
+		gate string
 	}
 	wantCtx := func(i int) string {
 		return kit.Canon([]any{map[string]any{"binding": fmt.Sprintf("tick%d", i), "type": "Schedule"}})
@@ -344,7 +347,7 @@ func runCase(c Case) (ev.Info, error) {
 	return info, nil
 }
 
-const rule = "the real operator (VerifAssemble + Start) on a fake cluster with two scripted hooks in different queues; 1-5 executions triggered by injected schedule ticks, each with a generated script: exit code {0,1,2,127,SIGKILL} x each of metrics/patch/admission/conversion file {untouched, valid, truncated, wrong JSON type, deleted}, optionally parked on a gate while the other hook runs; oracle from the hook's own log and the operator: cwd, six environment variables inside the temp dir, empty output files at start, unique file names across all executions, binding-context file == contexts of the task, outcome table (non-zero exit or malformed output -> failed and retried, nothing applied after a non-zero exit; exit 0 with valid outputs -> metric visible in the hook metric storage and patch applied to the cluster), temp directory empty after every execution. Non-trivial: an execution with a valid non-empty output file, or two overlapping executions."
+const rule = "the real operator (VerifAssemble + Start) on a fake cluster with two scripted hooks in different queues; 1-5 executions triggered by injected schedule ticks, each with a generated script: exit code {0,1,2,127,SIGKILL} x each of metrics/patch/admission/conversion file {untouched, valid, truncated, wrong JSON type, deleted; metrics and patch also: a valid document followed by a stray closing bracket}, optionally parked on a gate while the other hook runs; oracle from the hook's own log and the operator: cwd, six environment variables inside the temp dir, empty output files at start, unique file names across all executions, binding-context file == contexts of the task, outcome table (non-zero exit or malformed output -> failed and retried, nothing applied after a non-zero exit; exit 0 with valid outputs -> metric visible in the hook metric storage and patch applied to the cluster), temp directory empty after every execution. Non-trivial: an execution with a valid non-empty output file, or two overlapping executions."
 
 func TestExec(t *testing.T) {
 	ev.Main(t, ev.Spec[Case]{Property: "C12", Part: "exec", Rule: rule, Gen: gen, Run: runCase, Journal: true})
